@@ -27,3 +27,17 @@ Theorem C15_member_oracle : forall (Vr : Type) (E : EqDec Vr) (G : cfg Vr) (w : 
   cfg_member G w = true <-> LangG G w.
 Proof. exact (@cfg_member_spec). Qed.
 Print Assumptions C15_member_oracle.
+
+(* get_leftmost_derivation / get_rightmost_derivation, mirrored (Model/Deriv.v: the loop over the sons with its `start` / `end`
+   accumulators and the dropped repeated first line): for every valid tree the listing starts at the root symbol, every line follows
+   from the previous one by rewriting the leftmost (rightmost) variable with one production, and the last line is the yield *)
+From PFL Require Import Model.Deriv Proofs.Deriv.
+Theorem C15_leftmost_listing : forall (Vr : Type) (G : cfg Vr) (t : tree Vr), valid_tree G t ->
+  lm t <> nil /\ hd nil (lm t) = (root t :: nil) /\ lchain G (lm t) /\ last (lm t) nil = map T (yield t).
+Proof. exact (@lm_spec). Qed.
+Print Assumptions C15_leftmost_listing.
+
+Theorem C15_rightmost_listing : forall (Vr : Type) (G : cfg Vr) (t : tree Vr), valid_tree G t ->
+  rm t <> nil /\ hd nil (rm t) = (root t :: nil) /\ rchain G (rm t) /\ last (rm t) nil = map T (yield t).
+Proof. exact (@rm_spec). Qed.
+Print Assumptions C15_rightmost_listing.
